@@ -615,6 +615,13 @@ class Credits(Mode):
         self.credit_units_for_pricing_tiers = 0
 
     def _reset_timeouts(self):
+        if self.machine.game:
+            # credits do not expire during a game. timeouts restart when the game ends.
+            return
+
+        self._start_timeouts()
+
+    def _start_timeouts(self):
         if self.credits_config['fractional_credit_expiration_time']:
             self.debug_log("Adding delay to clear fractional credits")
             self.delay.reset(
@@ -631,7 +638,7 @@ class Credits(Mode):
 
     def _game_ended(self, **kwargs):
         del kwargs
-        self._reset_timeouts()
+        self._start_timeouts()
 
         self.reset_pricing_tier_count_this_game = False
 
